@@ -9,6 +9,44 @@ from .seqc import report
 PINV = ["NoDoubleInclusion", "WaitsForQuorum", "Drained", "NothingLost"]
 
 
+def burst(ctx, hs, which):
+    """a backlog: hundreds of digests handed over before a Make -- every one of them must be in a block after the flush"""
+    c = dict(Others="{1,2,3}", Stake="<- PS4", Digests="<- D400", NMakes="3", Weak="{}", Depth="430")
+    cfg = write_cfg(ctx, "prop-burst.cfg", "SSpec", c, invariants=["EmitBeh", "NoDoubleInclusion", "Drained"], constraints=["StopAtDepth"])
+    r = model_job(ctx, "schedule generation for the proposer: a backlog of up to 400 digests", "MC_ProposerSim.tla", cfg, False, json.dumps(c), workers=2,
+                  simulate=1, depth=2000, timeout=900)
+    if r["violated"]:
+        ctx.violation("Proposer.tla violates %s during schedule generation" % r["violated"], "model", {"tlc_output_tail": r["out"][-4000:]})
+    last = {}
+    for b in behaviours_from(r["out"]):
+        last[json.dumps(json.loads(b)[:-1])] = b
+    behs = list(last.values())[:3]
+    if not behs:
+        raise ToolError("no burst schedule generated")
+    bpath = ctx.path("prop-sched-burst.ndjson")
+    open(bpath, "w").write("\n".join(behs) + "\n")
+    tpath = ctx.path("prop-trace-burst.ndjson")
+    st = run_harness(ctx, hs, ["proposer", "in=" + bpath, "out=" + tpath, "stakes=1,1,1,1"], timeout=3000)
+    ctx.log("proposer burst: %s" % st)
+    tc = dict(Others="<- TrOthers", Stake="<- TrStake", Digests="<- D400", NMakes="6", Weak="{}")
+    rep = validate_trace(ctx, tpath, "prop-burst", module="TraceProposer.tla", base_constants=tc, invariants=["SpecInvs"], timeout=1800)
+    ctx.traces += st["schedules"]
+    ctx.evaluations += st["moves"]
+    biggest = 0
+    for line in open(tpath):
+        if '"observed"' in line or '"final"' in line:
+            for pl in json.loads(line).get("made", []):
+                biggest = max(biggest, len(pl))
+    ctx.extra["proposer_largest_payload_in_burst"] = biggest
+    for d in rep["div"][:10]:
+        ctx.divergences.append({"trace": "prop-burst", "line": d["rec"], "handler": d["kind"]})
+    if rep["ndiv"]:
+        ctx.log("DIVERGENCE: %d observations of the real proposer differ from Proposer.tla (burst; first: %s)" % (rep["ndiv"], json.dumps(rep["div"][:1])[:400]))
+    report(ctx, rep, tpath, which + ".", "the real Proposer task lost or duplicated digests of a backlog",
+           rerun=dict(harness=["proposer", "in={in}", "out={out}", "stakes=1,1,1,1"], schedules=bpath, module="TraceProposer.tla", constants=tc,
+                      invariants=["SpecInvs"]))
+
+
 def proposer_part(ctx, hs, which):
     q = ctx.quick()
     cfgs = [("eq4", "PS4", [1, 1, 1, 1]), ("uneq4", "PS4u", [1, 3, 2, 1])] + ([] if q else [("big4", "PS4b", [5, 1, 1, 1])])
@@ -58,3 +96,5 @@ def proposer_part(ctx, hs, which):
         report(ctx, rep, tpath, which + ".", "the real Proposer task (stakes %s) broke a monitor of Proposer.tla" % stakes,
                rerun=dict(harness=["proposer", "in={in}", "out={out}", "stakes=" + ",".join(map(str, stakes))], schedules=bpath,
                           module="TraceProposer.tla", constants=tc, invariants=["SpecInvs"]))
+    if which == "C13":
+        burst(ctx, hs, which)
